@@ -188,6 +188,28 @@ func c08Judge(seed *c08Seed, doc []byte) (sig string, reached bool, accepted boo
 		{"ProofList.Verify", func() bool { return fresh().Verify(keysFor(n), seed.ctx, seed.nonce, seed.issig, nil) }},
 		{"ProofList.Verify+labels", func() bool { return fresh().Verify(keysFor(n), seed.ctx, seed.nonce, seed.issig, labels) }},
 	}
+	// the same decoded objects verified more than once (verification caches derived data on the
+	// proof objects): a refusal must stay a refusal
+	calls = append(calls, call{"ProofList.Verify-again-on-the-same-objects", func() bool {
+		l := fresh()
+		a := l.Verify(keysFor(n), seed.ctx, seed.nonce, seed.issig, nil)
+		b := l.Verify(keysFor(n), seed.ctx, seed.nonce, seed.issig, nil)
+		return a || b
+	}}, call{"ProofList.Verify-after-verifying-each-element", func() bool {
+		l := fresh()
+		for i, p := range l {
+			if i >= n {
+				break
+			}
+			switch p := p.(type) {
+			case *ProofD:
+				p.Verify(keysFor(n)[i], seed.ctx, seed.nonce, seed.issig)
+			case *ProofU:
+				p.Verify(keysFor(n)[i], seed.ctx, seed.nonce)
+			}
+		}
+		return l.Verify(keysFor(n), seed.ctx, seed.nonce, seed.issig, nil)
+	}})
 	if n >= 1 {
 		calls = append(calls, call{"ProofList.Verify-one-key-fewer", func() bool {
 			return fresh().Verify(keysFor(n-1), seed.ctx, seed.nonce, seed.issig, nil)
